@@ -268,7 +268,11 @@ func runSign(c SCase) (n cnt, err error) {
 		if len(raw) == 0 {
 			continue // an empty payload has no bit to change
 		}
-		for _, bit := range bitsFor(c.Flips, c.AllBits, len(raw)*8) {
+		bits := bitsFor(c.Flips, c.AllBits, len(raw)*8)
+		if name == "protected" {
+			bits = protectedBits(raw, c.Flips, c.AllBits, true)
+		}
+		for _, bit := range bits {
 			tf, err := flip(f, bit)
 			if err != nil {
 				return n, err
@@ -299,6 +303,22 @@ func serName(j bool) string {
 		return "JSON"
 	}
 	return "compact"
+}
+
+// protectedBits: every bit of a short protected header; for a long one (embedded JWK) the drawn
+// positions plus the case-toggling bit of every ASCII letter (member names are where a header
+// that is re-serialised instead of kept verbatim goes wrong).
+func protectedBits(raw []byte, flips []int, all bool, cheap bool) []int {
+	if all || (cheap && len(raw) <= 64) {
+		return bitsFor(nil, true, len(raw)*8)
+	}
+	out := bitsFor(flips, false, len(raw)*8)
+	for i, b := range raw {
+		if (b >= 'a' && b <= 'z') || (b >= 'A' && b <= 'Z') {
+			out = append(out, i*8+2)
+		}
+	}
+	return out
 }
 
 func bitsFor(flips []int, all bool, nbits int) []int {
@@ -476,7 +496,12 @@ func runEncrypt(c ECase) (n cnt, err error) {
 		if len(raw) == 0 {
 			continue // dir / ECDH-ES have no encrypted key; an empty payload under GCM has no ciphertext
 		}
-		for _, bit := range bitsFor(c.Flips, c.AllBits, len(raw)*8) {
+		bits := bitsFor(c.Flips, c.AllBits, len(raw)*8)
+		if name == "protected" {
+			// public-key unwrapping costs milliseconds per attempt: every bit only for the symmetric key algorithms
+			bits = protectedBits(raw, c.Flips, c.AllBits, !strings.HasPrefix(c.Alg, "RSA") && !strings.HasPrefix(c.Alg, "ECDH"))
+		}
+		for _, bit := range bits {
 			tf, err := flip(f, bit)
 			if err != nil {
 				return n, err
@@ -564,7 +589,7 @@ func TestSignMatrix(t *testing.T) {
 }
 
 func TestEncryptMatrix(t *testing.T) {
-	rec := ev.New(prop, "jwe-matrix", "full matrix: 14 key-management algorithms x 6 content encryptions x {no compression, DEF} x {compact, JSON without AAD, JSON with empty AAD, JSON with AAD} x payload sizes "+
+	rec := ev.New(prop, "jwe-matrix", "full matrix: 14 key-management algorithms x 6 content encryptions x {no compression, DEF} x {compact, JSON without AAD, JSON with empty AAD, JSON with AAD; quick tier: compact and JSON with AAD only for RSA/ECDH} x payload sizes "+
 		"{0,1,15,16,17,31,32,33,255,4096} (two per combination, rotating; size 0 for every combination without compression); per object: decrypt == payload, GetAuthData == AAD, wrong key fails, first and last bit of "+
 		"protected/encrypted_key/iv/ciphertext/tag/aad flipped must fail; evaluations = decryptions attempted; all non-trivial")
 	rec.Exhaustive()
@@ -573,6 +598,9 @@ func TestEncryptMatrix(t *testing.T) {
 		for _, enc := range encAlgs {
 			for _, zip := range []bool{false, true} {
 				for mode := 0; mode < 4; mode++ {
+					if (mode == 1 || mode == 2) && !ev.Thorough() && (strings.HasPrefix(alg, "RSA") || strings.HasPrefix(alg, "ECDH")) {
+						continue // quick tier: public-key algorithms in compact and JSON+AAD form only (each attempt costs milliseconds)
+					}
 					szs := []int{sizes[i%len(sizes)], sizes[(i+5)%len(sizes)]}
 					if !zip {
 						szs = append(szs, 0)
@@ -609,7 +637,7 @@ var recRandom = ev.New(prop, "random-objects",
 		"or an EC key/signature with a leading zero byte, or a flip of the last bit of a field").Require("jws", "jwe", "block-edge", "last-bit", "sig-leading-zero")
 
 func TestRandomObjects(t *testing.T) {
-	ev.Rapid(t, "random-objects", 400, 20000, func(t *rapid.T) {
+	ev.Rapid(t, "random-objects", 300, 20000, func(t *rapid.T) {
 		flips := rapid.SliceOfN(rapid.IntRange(0, 1<<20), 4, 4).Draw(t, "flips")
 		size := rapid.IntRange(0, 600).Draw(t, "size")
 		if rapid.Bool().Draw(t, "sizek") {
